@@ -32,7 +32,7 @@ LEVEL_TEXT = ("Exploration: thousands of generated programs per run are evaluate
               "Mutated programs must fail with a BASIC error or agree with the reference; none may crash, abort or hang.")
 FLOORS = {"quick": 500, "thorough": 5000}
 SHARDS = {"quick": 8, "thorough": 16}
-BUDGET = {"quick": {"valid": 260, "large": 6, "malformed": 330}, "thorough": {"valid": 2200, "large": 60, "malformed": 2600},
+BUDGET = {"quick": {"valid": 230, "large": 6, "malformed": 300}, "thorough": {"valid": 2200, "large": 60, "malformed": 2600},
           "replay": {"valid": 1, "large": 1, "malformed": 1}}
 ASAN_EVERY = {"quick": 3, "thorough": 2, "replay": 1}
 TIMEOUT_S = 30.0
@@ -45,6 +45,8 @@ ASAN_BIN = os.path.join(lib.BUILD, "asan", "apirunner_asan")
 
 def prepare(tier):
     lib.build("rel", ["libiphreeqc_rel.so"])
+    if os.environ.get("C17_NO_ASAN"):      # development switch for sensitivity runs in scratch trees (saves the sanitizer build)
+        return
     try:
         lib.build("asan", ["apirunner_asan"])
     except Exception as e:          # the sanitizer leg is optional; its absence is recorded in the evidence
@@ -124,7 +126,7 @@ class Engine(object):
         env = dict(os.environ, PYTHONPATH=lib.VERIF + ":" + os.environ.get("PYTHONPATH", ""))
         self.h = Proc(["python3-vt", "-m", "vp.c17_helper", sd], env, os.path.join(sd, "helper.err"))
         self.asan = None
-        if os.path.exists(ASAN_BIN):
+        if os.path.exists(ASAN_BIN) and not os.environ.get("C17_NO_ASAN"):
             asd = os.path.join(sd, "asan")
             os.makedirs(asd, exist_ok=True)
             aenv = dict(os.environ, C08_SCRATCH=asd, C08_VERIF=lib.VERIF,
